@@ -13,11 +13,13 @@
 (* and asks only for fields the subgraph can resolve at that position.        *)
 EXTENDS FedLayout
 
-Mono(types, u) == [types |-> types, u |-> u, sub |-> FALSE, fed |-> FALSE]
-Sub(types, u) == [types |-> types, u |-> u, sub |-> TRUE, fed |-> FALSE]
+Mono(types, u) == [types |-> types, u |-> u, sub |-> FALSE, fed |-> FALSE, seq0 |-> 0]
+Sub(types, u) == [types |-> types, u |-> u, sub |-> TRUE, fed |-> FALSE, seq0 |-> 0]
+\* a subgraph answering a mutation when the world's counter stands at n
+SubAt(types, u, n) == [types |-> types, u |-> u, sub |-> TRUE, fed |-> FALSE, seq0 |-> n]
 \* the gateway's view used by FedNondet: field values come from the slots fetched so far (val), a slot that
 \* has not been fetched yields a marker [t |-> "?"] that survives completion
-Fed(types, u, val) == [types |-> types, u |-> u, sub |-> FALSE, fed |-> TRUE, val |-> val]
+Fed(types, u, val) == [types |-> types, u |-> u, sub |-> FALSE, fed |-> TRUE, val |-> val, seq0 |-> 0]
 Unknown(o, fn, a) == [t |-> "?", o |-> o, f |-> fn, a |-> a]
 
 Poison == Str("!external")
@@ -28,20 +30,41 @@ VarVal(vars, n) == IF HasName(vars, n) THEN ByName(vars, n).val ELSE Absent
 WithDefaults(defs, vars) ==
   LET miss == SelectSeq(defs, LAMBDA d : ~HasName(vars, d.name) /\ d.def # Absent)
   IN vars \o [i \in DOMAIN miss |-> [name |-> miss[i].name, val |-> miss[i].def]]
-ValOf(C, x) == IF x.t = "v" THEN VarVal(C.vars, x.v) ELSE x
+\* the value of an argument / directive value: variables substituted (also inside list and object literals), enum
+\* literals in their JSON form (the name as a string) -- what a server sees after coercion
+RECURSIVE ValOf(_, _)
+ValOf(C, x) ==
+  CASE x.t = "v" -> VarVal(C.vars, x.v)
+    [] x.t = "e" -> Str(x.v)
+    [] x.t = "l" -> Lst([i \in DOMAIN x.v |-> ValOf(C, x.v[i])])
+    [] x.t = "o" -> ObjV(x.k, [i \in DOMAIN x.v |-> ValOf(C, x.v[i])])
+    [] OTHER -> x
 ArgVal(C, args, n) == IF HasName(args, n) THEN ValOf(C, ByName(args, n).val) ELSE Absent
 DirTrue(C, d) == LET x == ValOf(C, d.val) IN x.t = "b" /\ x.v
 Skipped(C, dirs) ==
   \E i \in DOMAIN dirs : \/ dirs[i].name = "skip" /\ DirTrue(C, dirs[i])
                          \/ dirs[i].name = "include" /\ ~DirTrue(C, dirs[i])
 
+\* ------------------------------------------------------------------ equality of JSON values (object key order ignored)
+RECURSIVE VEq(_, _)
+VEq(a, b) ==
+  IF a.t # b.t THEN FALSE
+  ELSE CASE a.t = "o" -> /\ Len(a.k) = Len(b.k)
+                         /\ Range(a.k) = Range(b.k)
+                         /\ Cardinality(Range(a.k)) = Len(a.k)
+                         /\ \A i \in DOMAIN a.k : VEq(a.v[i], b.v[Idx(b.k, a.k[i])])
+         [] a.t = "l" -> Len(a.v) = Len(b.v) /\ \A i \in DOMAIN a.v : VEq(a.v[i], b.v[i])
+         [] a.t \in {"n", "x"} -> TRUE
+         [] OTHER -> a.v = b.v
+
 \* ------------------------------------------------------------------ data access
 ObjExists(M, o) == o \in DOMAIN M.u.objs
 ObjType(M, o) == M.u.objs[o].type
 FieldData(M, o, fn) == LET fs == M.u.objs[o].f IN IF fn \in DOMAIN fs THEN fs[fn] ELSE Null
+\* (the case keys are compared as JSON values: input objects in any key order)
 ApplyFn(val, a) ==
   IF val.t # "fn" THEN val
-  ELSE IF \E i \in DOMAIN val.m : val.m[i].k = a THEN val.m[CHOOSE i \in DOMAIN val.m : val.m[i].k = a].v ELSE val.d
+  ELSE IF \E i \in DOMAIN val.m : VEq(val.m[i].k, a) THEN val.m[CHOOSE i \in DOMAIN val.m : VEq(val.m[i].k, a)].v ELSE val.d
 
 RepGet(rep, n) == IF rep.t = "o" /\ Has(rep.k, n) THEN rep.v[Idx(rep.k, n)] ELSE Absent
 
@@ -67,6 +90,7 @@ RECURSIVE Dig(_), DigSeq(_)
 Dig(v) == CASE v.t = "n" -> "~"
             [] v.t = "x" -> "?"
             [] v.t = "s" -> v.v
+            [] v.t = "e" -> v.v
             [] v.t = "i" -> ToString(v.v)
             [] v.t = "b" -> IF v.v THEN "T" ELSE "F"
             [] v.t = "l" -> "[" \o DigSeq(v.v) \o "]"
@@ -98,6 +122,7 @@ Lookup(M, rep) ==
 TypenameField == F("__typename", NN(Ty("String")))
 FieldDefOf(M, tn, fn) == IF fn = "__typename" THEN TypenameField ELSE FieldOf(M.types, tn, fn)
 
+IntArg(C, args, n) == LET x == ArgVal(C, args, n) IN IF x.t = "i" THEN x.v ELSE 0
 \* h = [id, rep, prov]: object, the representation it was looked up with (Absent if none), provided field set
 Resolve(C, tn, h, fd, args) ==
   LET M == C.M IN
@@ -106,14 +131,20 @@ Resolve(C, tn, h, fd, args) ==
      IN IF <<h.id, fd.name, a>> \in DOMAIN M.val THEN M.val[<<h.id, fd.name, a>>] ELSE Unknown(h.id, fd.name, a)
   ELSE IF ~M.sub THEN
      IF fd.req # <<>> THEN ReqValue(fd.name, ProjD(M, fd.req, h.id))
-     ELSE LET dv == FieldData(M, h.id, fd.name) IN IF dv.t = "fn" THEN ApplyFn(dv, ArgVal(C, args, dv.a)) ELSE dv
+     ELSE LET dv == FieldData(M, h.id, fd.name)
+          IN CASE dv.t = "fn" -> ApplyFn(dv, ArgVal(C, args, dv.a))
+               [] dv.t = "ctr" -> Num(C.ctr + IntArg(C, args, dv.a))
+               [] OTHER -> dv
   ELSE
      IF tn = "Query" /\ fd.name = "_entities" THEN
         LET reps == ArgVal(C, args, "representations")
         IN IF reps.t # "l" THEN Null ELSE Lst([i \in DOMAIN reps.v |-> Lookup(M, reps.v[i])])
      ELSE IF ~Resolvable(M.types, tn, fd.name, h.prov) THEN Poison
      ELSE IF fd.req # <<>> THEN ReqValue(fd.name, ProjRep(fd.req, h.rep))
-     ELSE LET dv == FieldData(M, h.id, fd.name) IN IF dv.t = "fn" THEN ApplyFn(dv, ArgVal(C, args, dv.a)) ELSE dv
+     ELSE LET dv == FieldData(M, h.id, fd.name)
+          IN CASE dv.t = "fn" -> ApplyFn(dv, ArgVal(C, args, dv.a))
+               [] dv.t = "ctr" -> Num(C.ctr + IntArg(C, args, dv.a))
+               [] OTHER -> dv
 
 ChildProv(C, h, fd) ==
   IF ~C.M.sub THEN <<>>
@@ -137,12 +168,23 @@ Collect(C, tn, sels) ==
                  [] OTHER -> IF HasName(C.frags, s.name) /\ TypeApplies(C.M, ByName(C.frags, s.name).on, tn)
                              THEN Collect(C, tn, ByName(C.frags, s.name).sel) \o rest ELSE rest
 
-RECURSIVE ExecSet(_, _, _), ExecField(_, _, _, _), Complete(_, _, _, _, _, _), CompleteInner(_, _, _, _, _, _)
+RECURSIVE ExecSet(_, _, _), ExecField(_, _, _, _), Complete(_, _, _, _, _, _), CompleteInner(_, _, _, _, _, _), Serial(_, _, _, _, _, _)
+\* what a root mutation field adds to the world's counter
+BumpOf(C, h, f) ==
+  LET dv == FieldData(C.M, h.id, f.name)
+  IN IF dv.t = "ctr" /\ HasField(C.M.types, "Mutation", f.name) THEN IntArg(C, f.args, dv.a) ELSE 0
+\* root fields of a mutation are executed SERIALLY in document order, each seeing the effects of the previous ones
+Serial(C, tn, h, flat, keys, ctr) ==
+  IF keys = <<>> THEN <<>>
+  ELSE LET grp == SelectSeq(flat, LAMBDA f : RKey(f) = Head(keys))
+           C2 == [C EXCEPT !.ctr = ctr]
+       IN <<ExecField(C2, tn, h, grp)>> \o Serial(C, tn, h, flat, Tail(keys), ctr + BumpOf(C2, h, grp[1]))
 ExecSet(C, sels, h) ==
   LET tn == ObjType(C.M, h.id)
       flat == Collect(C, tn, sels)
       keys == Dedup([i \in DOMAIN flat |-> RKey(flat[i])])
-      res == TLCEval([i \in DOMAIN keys |-> ExecField(C, tn, h, SelectSeq(flat, LAMBDA f : RKey(f) = keys[i]))])
+      res == IF tn = "Mutation" THEN TLCEval(Serial(C, tn, h, flat, keys, C.ctr))
+             ELSE TLCEval([i \in DOMAIN keys |-> ExecField(C, tn, h, SelectSeq(flat, LAMBDA f : RKey(f) = keys[i]))])
   IN IF \E i \in DOMAIN res : res[i].r THEN Raise
      ELSE [v |-> ObjV(keys, [i \in DOMAIN res |-> res[i].v]), e |-> \E i \in DOMAIN res : res[i].e, r |-> FALSE]
 
@@ -174,22 +216,12 @@ CompleteInner(C, w, n, sub, raw, prov) ==
          [] raw.t = "h" -> ExecSet(C, sub, [id |-> raw.id, rep |-> raw.rep, prov |-> prov])
          [] OTHER -> Ok(Null)
 
+RootId(doc) == IF doc.op = "mutation" THEN "M" ELSE "Q"
+RootType(doc) == IF doc.op = "mutation" THEN "Mutation" ELSE "Query"
 Exec(M, doc, vars) ==
-  LET C == [M |-> M, frags |-> doc.frags, vars |-> WithDefaults(doc.vars, vars)]
-      r == ExecSet(C, doc.sel, [id |-> "Q", rep |-> Absent, prov |-> <<>>])
+  LET C == [M |-> M, frags |-> doc.frags, vars |-> WithDefaults(doc.vars, vars), ctr |-> M.seq0]
+      r == ExecSet(C, doc.sel, [id |-> RootId(doc), rep |-> Absent, prov |-> <<>>])
   IN [data |-> IF r.r THEN Null ELSE r.v, err |-> r.e]
-
-\* ------------------------------------------------------------------ equality of JSON values (object key order ignored)
-RECURSIVE VEq(_, _)
-VEq(a, b) ==
-  IF a.t # b.t THEN FALSE
-  ELSE CASE a.t = "o" -> /\ Len(a.k) = Len(b.k)
-                         /\ Range(a.k) = Range(b.k)
-                         /\ Cardinality(Range(a.k)) = Len(a.k)
-                         /\ \A i \in DOMAIN a.k : VEq(a.v[i], b.v[Idx(b.k, a.k[i])])
-         [] a.t = "l" -> Len(a.v) = Len(b.v) /\ \A i \in DOMAIN a.v : VEq(a.v[i], b.v[i])
-         [] a.t \in {"n", "x"} -> TRUE
-         [] OTHER -> a.v = b.v
 
 \* ------------------------------------------------------------------ RequestOK
 \* Validity of an operation against the subgraph's own schema (the rules that matter for a generated
@@ -266,13 +298,14 @@ EntitiesOK(C, sels) ==
         IN reps.t = "l" /\ reps.v # <<>> /\ \A j \in DOMAIN reps.v : RepOK(C, reps.v[j], sels[i].sel)
 
 RequestOK(M, doc, vars) ==
-  LET C == [M |-> M, frags |-> doc.frags, vars |-> WithDefaults(doc.vars, vars), vdefs |-> doc.vars]
-  IN SelOK(C, "Query", doc.sel, <<>>) /\ EntitiesOK(C, doc.sel)
+  LET C == [M |-> M, frags |-> doc.frags, vars |-> WithDefaults(doc.vars, vars), vdefs |-> doc.vars, ctr |-> 0]
+  IN SelOK(C, RootType(doc), doc.sel, <<>>) /\ EntitiesOK(C, doc.sel)
 
 \* ------------------------------------------------------------------ consistent data universes
 \* the universes the property quantifies over: typed references, unique keys, key / @requires inputs non-null
 WellTyped(types, u) ==
   /\ "Q" \in DOMAIN u.objs /\ u.objs["Q"].type = "Query"
+  /\ IsType(types, "Mutation") => ("M" \in DOMAIN u.objs /\ u.objs["M"].type = "Mutation")
   /\ \A o \in DOMAIN u.objs :
         /\ IsType(types, u.objs[o].type) /\ TypeOf(types, u.objs[o].type).kind = "OBJECT"
         /\ \A fn \in DOMAIN u.objs[o].f : HasField(types, u.objs[o].type, fn)
